@@ -2,6 +2,7 @@
 import gens_split as G
 import splitcommon as SC
 from props import c05_fmt as FE
+from props import c05_self as SF
 
 ENGINE = "roundtrip"
 RULE = ("grammar derivations (DESIGN.md section 3; duplicate-free; incl. resolved / unresolved / chained @string references, "
@@ -19,6 +20,15 @@ RULE = ("grammar derivations (DESIGN.md section 3; duplicate-free; incl. resolve
         "value_column 0 / 1 / len(key)+2,+3,+4 / very large / 'auto', both trailing commas; single blocks, every ordered pair and every "
         "triple of {free text, @comment, @preamble, @string, entry}, tours through all 24 adjacencies under EVERY separator of the pool, "
         "entries with 0..4 fields under EVERY indent of the pool; "
+        "plus the stream `selfref` (props/c05_self.py): well-formed documents with comments that read like the WRITER'S OWN WARNING "
+        "about the block next to them - the exact text for the line count of that block in the input layout / in the writer's layout "
+        "(splitlines and newline counts) and its near misses (other counts, digit systems, case, blanks, doubled, bare template), "
+        "under the default parsing_failed_comment (rendered from the tree under test) and ~25 custom templates (incl. ones that "
+        "str.format cannot fill in; text and format template equal or different), directly above / one blank line above / other gaps "
+        "above / below / far from every kind and layout of valid block, as free text, inside an explicit comment, inside a value of "
+        "the neighbouring entry or of the block itself, as an @string value that is referred to, inside a @preamble; documents in "
+        "which every block carries its own warning; the writer's other constants as text; these round trips are continued to a "
+        "third and fourth write; "
         "default parse and write stacks; distinct = distinct (document, format); "
         "non-trivial = the document has an entry with a field, or at least two blocks")
 TRUSTED = ["the model side composes Model/Splitter, Model/Interpolate, Model/Enclosing and Model/Writer (op 150)"]
@@ -96,6 +106,9 @@ def generate(rng, tier):
     # EDGE VALUES of every BibtexFormat setting x every block kind at every position (props/c05_fmt.py); after all other
     # streams, so that those keep their inputs
     cases += FE.generate(rng, tier)
+    # THE LIBRARY'S OWN ARTEFACTS AS INPUT (props/c05_self.py): comments that read like the writer's warning about the block next
+    # to them, under the default and custom templates; after all other streams
+    cases += SF.generate(rng, tier)
     return cases
 
 
@@ -236,13 +249,18 @@ def mkfmt(d):
     f.value_column = d["column"]
     f.trailing_comma = d["trailing"]
     f.block_separator = d["sep"]
+    if d.get("failed") is not None:
+        f.parsing_failed_comment = d["failed"]
     return f
 
 
 def impl(case):
     import bibtexparser, enc, implutil
     inp = case["input"]
-    text = inp["text"]
+    # stream selfref: the document is put together here, in the process that has the tree under test, so that the library's
+    # default warning text is the one of THAT tree (inp["text"] is the same document as the generating process saw it)
+    text = SF.render(inp["parts"]) if inp.get("parts") else inp["text"]
+    deep = case["stream"] == "selfref"
 
     snap = []
 
@@ -252,6 +270,14 @@ def impl(case):
         t1 = bibtexparser.write_string(l1, bibtex_format=mkfmt(inp["fmt"]))
         l2 = bibtexparser.parse_string(t1)
         t2 = bibtexparser.write_string(l2, bibtex_format=mkfmt(inp["fmt"]))
+        if deep:
+            # the written text is a well-formed document itself: the property holds for it, and for what is written from it
+            tk = t2
+            for _ in range(2):
+                lk = bibtexparser.parse_string(tk)
+                snap.append(SC.content(lk))
+                tk = bibtexparser.write_string(lk, bibtex_format=mkfmt(inp["fmt"]))
+                snap.append(tk)
         return l1, t1, l2, t2
     r = implutil.guarded(go)
     rec = {"key": str(hash((text, str(inp["fmt"])))), "tags": [case["stream"]]}
@@ -260,7 +286,8 @@ def impl(case):
     rec["tags"] += inp.get("labels", [])
     fm = inp["fmt"]
     rec["sx_in"] = [150, enc.enc_str(text), [enc.enc_str(fm["indent"]), ([] if fm["column"] == "auto" else [fm["column"]]),
-                                            enc.enc_str(fm["sep"]), int(fm["trailing"]), enc.enc_str(bibtexparser.BibtexFormat().parsing_failed_comment)]]
+                                            enc.enc_str(fm["sep"]), int(fm["trailing"]),
+                                            enc.enc_str(fm["failed"] if fm.get("failed") is not None else bibtexparser.BibtexFormat().parsing_failed_comment)]]
     if not SC.lower_ok(text):
         rec["skip"] = True
     if r[0] == "exc":
@@ -283,6 +310,10 @@ def impl(case):
         ok, detail = False, "content differs after write+parse at block %d: %r vs %r" % (i, c1[i:i + 1], c2[i:i + 1])
     elif t1 != t2:
         ok, detail = False, "second write differs from the first"
+    elif deep and (snap[1] != c1 or snap[3] != c1):
+        ok, detail = False, "content differs after the %s write + parse" % ("second" if snap[1] != c1 else "third")
+    elif deep and (snap[2] != t1 or snap[4] != t1):
+        ok, detail = False, "the %s write differs from the first" % ("third" if snap[2] != t1 else "fourth")
     rec["oracle"] = {"ok": ok, "detail": detail[:400]}
     def _bs(x):
         return isinstance(x, str) and x.endswith("\\")
@@ -300,6 +331,9 @@ def impl(case):
 
 def shrink(case):
     spec = case["input"].get("size")
+    if case["input"].get("parts"):
+        # the text as it stands (rendered in this process); the pieces would override it
+        case = dict(case, input={k: v for k, v in case["input"].items() if k != "parts"})
     if spec is None:
         return SC.shrink_text(case)
     return shrink_size(case, spec)
